@@ -29,15 +29,21 @@ THEOREMS = {
     "SpecKitV.Props.C01": ["numba_cuda_agree_win_only_csd", "numba_cuda_agree_win_only_auto", "numba_cuda_agree_detrend0_csd",
                            "numba_cuda_agree_detrend0_auto", "numba_cuda_agree_poly_csd", "numba_cuda_agree_poly_auto",
                            "ref_cross_is_X_conjY"],
-    # DELAY-THEOREMS (see the end of this file for the status of SpecKitV.Lemmas.Delay)
+    # SpecKitV/Lemmas/Delay.lean existed and built (lake build SpecKitV.Lemmas.Delay) when this module was finished; these are the
+    # theorems it really contains (order −1 decomposition and bound, exact static gain for every order, sign convention, perturbation)
+    "SpecKitV.Lemmas.Delay": ["detr_gain", "segDFT_gain", "delay_decomposition", "delay_bound", "tf_of_pure_delay", "tf_of_pure_delay_arg",
+                              "tf_delay_perturbed", "tf_delay_perturbed_abs"],
 }
 CONTRACTS = ["np.linalg.qr (through _build_Q) returns orthonormal columns spanning the polynomials of degree <= order (checked numerically by C08's correspondence)",
              "CUDA kernels are translated from core_cuda.py source and executed only under Numba's CUDA simulator",
              "np.angle / np.abs / np.conj on complex128 behave as Complex.arg / norm / conj"]
 ASSUMPTIONS = ["rounding and fastmath re-association are covered by the stated forward tolerance (vk.props._an.bin_tol), not by theorem",
-               "the delay deviation |Hxy - e^{-i w d}| is bounded per bin by max_s |sum_k c_k x(s+k)| / sqrt(XX) with c the shifted-window difference "
-               "(the proved decomposition, evaluated numerically): deterministic (l-infinity and l2 Hoelder) for every record, and for unit white "
-               "Gaussian records additionally the 8-sigma quantile 8*||c||_2 (failure probability < 1e-13 per segment)",
+               "the delay deviation |Hxy - e^{-i w d}| is bounded per bin by max_s |sum_k c_k x(s+k)| / sqrt(XX) with c the shifted-window difference: "
+               "for order -1 this is exactly `delay_decomposition`/`delay_bound` evaluated numerically (B = max|x| over the segment); for orders >= 0 the "
+               "same identity is applied to the effective window u = (I-P)(w e^{-i w n}) (P the symmetric polynomial projection), which is plain "
+               "algebra but NOT a Lean theorem here; deterministic (l-infinity and l2 Hoelder) for every record, and for unit white Gaussian records "
+               "additionally the 8-sigma quantile 8*||c||_2 (failure probability < 1e-13 per segment); passing from per-segment to the averaged "
+               "estimate uses mean|X_s| <= sqrt(XX) (`tf_delay_perturbed` is the one-segment statement)",
                "the NumPy fallbacks are tied to the reference by correspondence (C01) and by the backend-agreement part of this oracle, not by theorem"]
 RULE = ("cases = (mode gain|delay|single|edge|corpus, scheduler, detrend order, window, backend, record kind, gain g or delay d, data layout 2xN|Nx2); "
         "every (scheduler x order x window) combination is visited by rotation, records/options drawn from a per-case seed; "
@@ -403,7 +409,8 @@ def check_delay(P: C.Part, s: Dict[str, Any], res, x: np.ndarray, y: np.ndarray,
         err = abs(complex(H[j]) - target)
         P.hit("delay.bin")
         stats["delay_worst_ratio"] = max(stats.get("delay_worst_ratio", 0.0), err / tol)
-        stats["delay_worst_errL/d"] = max(stats.get("delay_worst_errL/d", 0.0), err * L / d)
+        if white is not None and len(D) >= 4:
+            stats["delay_white_K>=4_worst_err*L/d"] = max(stats.get("delay_white_K>=4_worst_err*L/d", 0.0), err * L / d)
         if not err <= tol:
             ph = wrap(math.atan2(H[j].imag, H[j].real) + phi)
             viol(P, f"{backend} {o['scheduler']} order={order} win={o['win']}: y[n]=x[n-{d}] but Hxy[{j}]={complex(H[j])!r}, expected e^(-i*{phi:.4f})={target!r}: "
@@ -624,36 +631,51 @@ def oracle(ctx, intensive: bool = False, hints: List[Dict[str, Any]] = ()) -> C.
     # 0. corpus (D1) — both backends, compute and compute_single_bin
     for s in corpus_specs():
         run_spec(P, s, BACKENDS, None, stats)
-    # 3'. CUDA through the simulator (analyzer level): the three cross kernels (orders −1, 0, 1|2) on a pure delay (decides the sign of Im XY),
-    #     one static gain, one single-bin; compared with numba and checked against the property
+    # 3'. CUDA through the simulator (analyzer level).  The simulator costs ~0.5 s per kernel launch (= per bin), so: single-bin pure delays on
+    #     the three cross kernels (orders −1, 0, 1, 2: decides the sign of Im XY) and full `compute_spectrum(backend="cuda")` runs restricted
+    #     by `band` to three bins of the plan; each compared with numba and checked against the property
     if cuda is not None:
-        n_cu = ctx.scale(6, 16) * (2 if intensive else 1)
+        n_cu = ctx.scale(6, 24) * (2 if intensive else 1)
         for i in range(n_cu):
             if used() > 0.3 or enough():
                 if used() > 0.3:
                     P.notes.append(f"time budget reached after {i} of {n_cu} CUDA-simulator cases")
                 break
-            mode = "delay" if i % 6 < 4 else ["gain", "single-delay"][i % 2]
+            k, rep = i % 6, i // 6
+            mode = "single-delay" if k < 4 else ("delay" if k == 4 else "gain")
             s = make_spec(mode, off + 1 + 7 * i, cs())
-            s["N"] = 560 + 40 * (i % 3)
             s["kind"] = "noise"
-            s["o"].update({"Jdes": 8, "Kdes": 3, "olap": 0.5, "order": ORDERS[i % 4], "win": WINS[(i // 4) % 2], "bmin": 1.0})
+            s["o"].update({"Jdes": 8, "Kdes": 3, "olap": 0.5, "order": ORDERS[(k + rep) % 4], "win": WINS[(i // 2) % 2], "bmin": 1.0})
             if s["o"]["win"] == "kaiser":
                 s["o"]["psll"] = 60.0
-            if "d" in s:
-                s["d"] = 1
-                s["o"]["Lmin"] = 160
-            else:
-                s["o"]["Lmin"] = 32
-            if mode == "single-delay":
-                s["L"] = 256
-                s["freq"] = 1.0 * s["fs"] / (2 * math.pi * s["d"])
             s["layout"] = "2xN"
+            if mode == "single-delay":
+                s["d"] = 1 + (i // 4) % 2
+                s["N"] = 900
+                s["L"] = 200 * s["d"]
+                s["freq"] = float(np.random.default_rng(s["rec_seed"]).uniform(0.6, 2.0)) * s["fs"] / (2 * math.pi * s["d"])
+                s["via"] = "L"
+            else:
+                s["N"] = 600
+                if "d" in s:
+                    s["d"] = 1
+                s["o"]["Lmin"] = 150
+                try:
+                    x, y, _ = build_data(s)
+                    with warnings.catch_warnings():
+                        warnings.simplefilter("ignore")
+                        f = np.asarray(_an.analyzer(layout(x, y, "2xN"), s["fs"], **s["o"]).plan()["f"])
+                    phi = 2 * np.pi * f / s["fs"]
+                    j0 = int(np.argmax(phi >= 0.6)) if np.any(phi >= 0.6) else 0
+                    j1 = min(j0 + 2, len(f) - 1)
+                    s["o"]["band"] = [float(f[j0]) * (1 - 1e-12), float(f[j1]) * (1 + 1e-12)]
+                except (Exception, SystemExit):
+                    continue
             run_spec(P, s, ["numba", "cuda"], cuda, stats)
     else:
         P.notes.append("CUDA backend not exercised (simulator worker unavailable)")
     # 1. static gain: every scheduler x order x window by rotation, both backends
-    n_gain = ctx.scale(32, 256) * mult
+    n_gain = ctx.scale(64, 384) * mult
     for i in range(n_gain):
         if used() > 0.6 or enough():
             if used() > 0.6:
@@ -665,7 +687,7 @@ def oracle(ctx, intensive: bool = False, hints: List[Dict[str, Any]] = ()) -> C.
         if i < 2:
             P.sample({"op": "oracle", **short(s)})
     # 2. pure delay
-    n_delay = ctx.scale(24, 192) * mult
+    n_delay = ctx.scale(48, 288) * mult
     for i in range(n_delay):
         if used() > 0.8 or enough():
             break
@@ -674,7 +696,7 @@ def oracle(ctx, intensive: bool = False, hints: List[Dict[str, Any]] = ()) -> C.
         if i < 2:
             P.sample({"op": "oracle", **short(s)})
     # 4. single-bin path for (1) and (2)
-    n_single = ctx.scale(24, 192) * mult
+    n_single = ctx.scale(48, 288) * mult
     for i in range(n_single):
         if used() > 0.95 or enough():
             break
@@ -726,8 +748,3 @@ def replay(ctx, data) -> C.Part:
     if cuda:
         cuda.close()
     return P
-
-
-# ---------------------------------------------------------------- status of the delay lemmas
-# SpecKitV/Lemmas/Delay.lean (segDFT_gain, delay_decomposition, delay_bound, tf_of_pure_delay, tf_of_pure_delay_arg, tf_delay_perturbed)
-# is listed in THEOREMS above only if the file exists and builds at the time this module was finished; see DELAY-THEOREMS.
